@@ -1146,7 +1146,7 @@ fn main() {
     } else {
         cases.extend(corpus());
         let mut rng = Rng::new(args.seed);
-        let rounds = if args.tier == "thorough" { 6000usize } else { 130usize };
+        let rounds = if args.tier == "thorough" { 6000usize } else { 400usize };
         'outer: for round in 0..rounds {
             for n in 1..=16usize {
                 // small networks every round, large ones less often
@@ -1162,7 +1162,7 @@ fn main() {
         rep.notes.push(format!("mode={} seed={} generated={}", mode(), args.seed, cases.len()));
     }
     let t0 = std::time::Instant::now();
-    let budget = if args.tier == "thorough" { 480 } else { 16 };
+    let budget = if args.tier == "thorough" { 480 } else { 40 };
     let mut skipped = 0usize;
     for (i, c) in cases.iter().enumerate() {
         if args.replay.is_none() && i >= corpus().len() && t0.elapsed().as_secs() > budget {
